@@ -64,14 +64,15 @@ Theorem C07_undo_run_reverse_chronological : forall t c ops k,
 Proof. exact undo_run_reverse_chronological. Qed.
 Print Assumptions C07_undo_run_reverse_chronological.
 
-(* Repeated undo reaches the text the session started with, provided no
+(* Repeated undo reaches the text the session started with - the document of
+   the last Buffer.reset, or the initial one ([session_start]) -, provided no
    command that was not snapshotted changed the text while the undo stack was
    empty ([ops_safe]); k = current stack height suffices. *)
 Theorem C07_reaches_start : forall t c ops k,
   0 <= c <= len t -> Forall op_ok ops -> ops_safe (fresh t c) ops ->
   let s := urun (fresh t c) ops in
   (length (ustack s) <= k)%nat ->
-  utext (iter_op Undo k s) = t.
+  utext (iter_op Undo k s) = session_start t ops.
 Proof. exact reaches_start. Qed.
 Print Assumptions C07_reaches_start.
 
@@ -158,7 +159,7 @@ Theorem C07_key_reaches_start : forall tbl t0 c0 evs k,
   tbl_sane tbl -> 0 <= c0 <= len t0 -> Forall kev_ok evs -> all_quiet tbl (kfresh t0 c0) evs ->
   let s := kbuf (krun tbl (kfresh t0 c0) evs) in
   (length (ustack s) <= k)%nat ->
-  utext (iter_op Undo k s) = t0.
+  utext (iter_op Undo k s) = ksession_start t0 evs.
 Proof. exact key_reaches_start. Qed.
 Print Assumptions C07_key_reaches_start.
 
@@ -284,7 +285,7 @@ Theorem C07_table_reaches_start : forall t0 c0 evs k,
   0 <= c0 <= len t0 -> Forall kev_ok evs -> Forall (modelled c07_rows) evs ->
   let s := kbuf (krun c07_rows (kfresh t0 c0) evs) in
   (length (ustack s) <= k)%nat ->
-  utext (iter_op Undo k s) = t0.
+  utext (iter_op Undo k s) = ksession_start t0 evs.
 Proof. exact live_reaches_start. Qed.
 Print Assumptions C07_table_reaches_start.
 
@@ -349,6 +350,57 @@ Theorem C07_yank_then_undo : forall h s (e : C09_Kill.st) arg,
   here (undo (kbuf (kstep c07_rows s (cmd_key h b')))) = (btext (C09_Kill.sb e), bcur (C09_Kill.sb e)).
 Proof. exact yank_then_undo. Qed.
 Print Assumptions C07_yank_then_undo.
+
+(* ---- several prompts / Buffer.reset on one session (round 4) ---- *)
+
+(* Buffer.reset(document) starts a new session whatever happened before: both
+   stacks empty and the ghost history empty - nothing of an earlier session can
+   be undone or redone into the new one. *)
+Theorem C07_reset_restarts : forall g t c,
+  gstep g (Reset t c) = (mkust t c [] [] (ubad (fst g)), []).
+Proof. exact reset_restarts. Qed.
+Print Assumptions C07_reset_restarts.
+
+(* Everything stated "from a fresh buffer" holds from the last reset on: the
+   run after a reset IS a run from a fresh buffer holding the new document,
+   ghost history included. *)
+Theorem C07_run_after_reset : forall s t c ops,
+  ubad s = false ->
+  urun s (Reset t c :: ops) = urun (fresh t c) ops /\
+  fold_left gstep (Reset t c :: ops) (s, []) = grun (fresh t c) ops.
+Proof. exact run_after_reset. Qed.
+Print Assumptions C07_run_after_reset.
+
+(* A new prompt on the same PromptSession (Buffer.reset + Application.reset ->
+   KeyProcessor.reset): empty stacks and NO previous handler, however the
+   previous prompt ended; the rest of the session is a session from a fresh
+   prompt. *)
+Theorem C07_new_prompt_restarts : forall tbl s t c evs,
+  ubad (kbuf s) = false ->
+  kstep tbl s (KReset t c) = mkkst (mkust t c [] [] false) None /\
+  krun tbl s (KReset t c :: evs) = krun tbl (kfresh t c) evs.
+Proof. exact new_prompt_restarts. Qed.
+Print Assumptions C07_new_prompt_restarts.
+
+(* The first run of the new prompt snapshots its start text even when the same
+   binding handled the last key of the previous prompt: one undo after it gives
+   the new prompt's start text and cursor. *)
+Theorem C07_first_run_after_reset : forall tbl h s t0 c0 n t c evs,
+  r_cls (lookup tbl h) = 2 -> r_act (lookup tbl h) = 0 ->
+  Forall (in_run_of h) evs -> 0 <= c0 <= len t0 -> ubad (kbuf s) = false ->
+  let s' := krun tbl s (KReset t0 c0 :: Key h n t c :: evs) in
+  utext (kbuf s') <> t0 ->
+  here (undo (kbuf s')) = (t0, c0).
+Proof. exact first_run_after_reset. Qed.
+Print Assumptions C07_first_run_after_reset.
+
+(* every undo handler of the real table is one of the two whose number of
+   undo() calls the model computes from the typed count (Vi u: event.arg,
+   emacs undo: 1) *)
+Theorem C07_table_undo_handlers_modelled : forall h,
+  r_act (lookup c07_rows h) = 1 -> r_role (lookup c07_rows h) = 4 \/ r_role (lookup c07_rows h) = 5.
+Proof. exact live_undo_roles. Qed.
+Print Assumptions C07_table_undo_handlers_modelled.
 
 (* Non-vacuity: a reachable state with two stacked snapshots and a redo entry
    is well-formed; the real table has every role. *)
